@@ -387,8 +387,12 @@ class C19(Check):
             # in the eagerly bootstrapped twin: the lazy hook must hand instance creation back unchanged
             got_new = sorted(world.built.new_log)
             if got_new != ref_new:
+                # (C19-KF1 again: instances of the bypassing plain subclass are empty, so the copies a helper would have made --
+                # each one a __new__ call -- never happen)
+                used_sub = any(p["role"] == "sub" or p["first_use"] == "via_subclass" for p in plans)
                 ctx.violate({"invariant": "instance_creation_equals_eager", "new_shape": str(spec["host"].get("new_shape")),
-                             "sub": str((spec.get("sub") or {}).get("kind")) + ("+mixin" if (spec.get("sub") or {}).get("mixin_first") else "")},
+                             "sub": str((spec.get("sub") or {}).get("kind")) + ("+mixin" if (spec.get("sub") or {}).get("mixin_first") else ""),
+                             "via": "plain_subclass_bypassing_new" if (bypass and used_sub and len(got_new) < len(ref_new)) else "-"},
                             {"got": got_new[:12], "want": ref_new[:12]})
         if not sched.deadlock and not sched.capped:
             for role, cls in world.classes.items():
